@@ -54,7 +54,7 @@ def run(ctx):
         if ctx.tier == "quick":
             k = (ctx.seed * 5) % max(1, len(small))
             rot = small[k:] + small[:k]
-            tokmut(ctx, rot[:int(os.environ.get("VERIF_C07_FILES", "6"))], 1, cases, "s")
+            tokmut(ctx, rot[:int(os.environ.get("VERIF_C07_FILES", "5"))], 1, cases, "s")
             if os.environ.get("VERIF_C07_MINI") != "1":      # development knob: single-edit schedule only
                 tokmut(ctx, [tiny[ctx.seed % len(tiny)]], 2, cases, "p")
                 ctx.tlc("gocore", "GoCore", "GoCore_c07q_mut.cfg", cases_path=cases, timeout_s=1200, workers=4)
